@@ -54,6 +54,19 @@ def generate(tier, rng):
                 yield {"fam": "adversarial", "fl": "nm", "asrt": False, "n0": k,
                        "ops": star + [{"op": "sc", "n": 0, "xs": list(range(k - 1, 0, -1))}, {"op": "sc", "n": 0, "xs": [2, 1]}],
                        "kind": kind, "base": base, "params": _params(rng, k), "loglevel": 0}
+    # scale: more nodes than any de-duplication / membership shortcut waits for (sets, dicts and `in` engage the user's
+    # __hash__/__eq__ only above a cut-off)
+    for w in ([40] if tier == "quick" else [20, 40, 70]):
+        big = [{"op": "sc", "n": 0, "xs": list(range(1, w + 1))}] + [{"op": "sp", "n": w + i, "v": i} for i in range(1, w)]
+        for kind in KINDS:
+            prm = _params(rng, 2 * w)
+            prm["queries"] = [[0, "**", False], [0, "**/**", True], [0, "**/*", False], [0, "*", True], [0, "**/..", True],
+                              [0, "**/n1", False], [1, "../**", True]] + prm["queries"][:3]
+            prm["pairs"] += [[2 * w - 1, 1], [0, 2 * w - 1], [w, w]]
+            prm["export_roots"] = [0]
+            prm["maxlevel"] = None
+            yield {"fam": "adversarial", "fl": "nm", "asrt": False, "n0": 2 * w, "ops": big + [{"op": "sp", "n": 3, "v": w + 5}],
+                   "kind": kind, "base": rng.choice(["nm", "light"]), "params": prm, "loglevel": 0}
     for _ in range(300 if tier == "quick" else 5000):
         n0 = rng.randrange(3, 7)
         ops = fc.random_history(rng, n0, rng.randrange(3, 11 if tier == "quick" else 26), nonnode=False)
